@@ -1149,3 +1149,12 @@ Proof.
   destruct HF as [H1 H2]. split; [exact H1|]. split; [exact H2|]. split; [|exact HG].
   unfold fetch_good in HG. destruct b; try contradiction. tauto.
 Qed.
+
+(* reads that do not use the backend never hand anything to the backend queue *)
+Lemma get_local_handed c d k hash sz off zstd b rnd d' r :
+  Inv (lru d) -> (b = BMiss \/ c_proxy c = false) ->
+  exec c d (RGet k hash sz off zstd b rnd) = (d', r) -> handed d' = handed d.
+Proof.
+  intros HI Hb H. pose proof (get_local_spec c d k hash sz off zstd b rnd d' r HI Hb H) as HL.
+  destruct (get_guard k hash sz off zstd); [destruct HL as [_ ->]; reflexivity|apply HL].
+Qed.
